@@ -105,7 +105,11 @@ def run_case(data):
                 sid = w.next_local_id()
                 if m.send_headers_verdict(sid, 'final', False)[0] != M.PERMIT:
                     continue
-                o = w.s.call('send_headers', sid, bad)
+                if ch.chance(64):
+                    # a valid list with a priority weight outside 1..256: refused just the same, opens nothing
+                    o = w.s.call('send_headers', sid, list(REQ), priority_weight=ch.pick([0, 0, 257]))
+                else:
+                    o = w.s.call('send_headers', sid, bad)
             else:
                 # the response on a promised stream (the moment it starts to count)
                 res_l = [s for s in usable if m.get(s).state == M.RES_LOCAL]
@@ -121,6 +125,10 @@ def run_case(data):
                 break
             if o.out:
                 w.violate('refused-open-emitted', o.out.hex()[:40])
+            out_n, in_n = w.s.c.open_outbound_streams, w.s.c.open_inbound_streams
+            if (out_n, in_n) != (m.open_count(True), m.open_count(False)):
+                w.violate('refused-open-changed-the-count', 'library %d/%d model %d/%d' %
+                          (out_n, in_n, m.open_count(True), m.open_count(False)))
             r.labels.add('refused-open')
         elif op == 'oversize-end':
             # a final DATA frame that is refused for its size (larger than the peer's MAX_FRAME_SIZE or than the
